@@ -427,6 +427,16 @@ obligation('C06', 'C06-8 the block builder used after executing a proposal accep
 
 
 # ----------------------------------------------------------------------------------------------------------------- C06-9
+def replay_empty_eci(model=None, path=None):
+    """native: the fallback item (ExtendedCommitInfo(Bytes::new())) through the parser of ProcessProposal"""
+    code = open('/verif/replay_templates/c06_empty_eci.rs').read()
+    r = replay.run_crate_test('astria-core', 'crates/astria-core/src/sequencerblock/v1/block/mod.rs', code, 'verif_replay_c06_eci')
+    if not r['lines']:
+        return {'mode': 'native-crate-test', 'reproduced': None, 'error': r['output'][-1500:]}
+    o = r['lines'][-1]
+    return {'mode': 'native-crate-test', 'scenario': 'block data [commitments, DataItem::ExtendedCommitInfo(empty bytes)] parsed with vote extensions enabled', 'observed': o, 'reproduced': not o['parsed']}
+
+
 @obligation('C06', 'C06-9 prepare_proposal assembly: the response is commitments, upgrade hashes (if any), extended commit info (if enabled; the empty one when the real one does not fit), then exactly the included transactions in order, and its total size never exceeds max_tx_bytes')
 def c06_9(run):
     from obligations import c05 as C5
@@ -435,9 +445,25 @@ def c06_9(run):
     cfg = {}
     LIM = z3.BitVecVal(1 << 62, 64)
 
-    def bytes_obj(tag, ln):
-        b = Obj('bytes::Bytes', kind='opaque'); b.attrs['tag'] = tag; b.attrs['symlen'] = ln
+    def bytes_obj(tag, ln, prov=None):
+        b = Obj('bytes::Bytes', kind='opaque'); b.attrs['tag'] = tag; b.attrs['symlen'] = ln; b.attrs['prov'] = prov
         return b
+
+    def prov_of(ctx, v):
+        v = ctx.ex.deref_val(ctx.st, v)
+        return v.attrs.get('prov') if isinstance(v, Obj) else None
+
+    def tagged(ty, prov):
+        o = Obj(ty, kind='opaque'); o.attrs['prov'] = prov
+        return o
+
+    def _with(o, **attrs):
+        o.attrs.update({k: v for k, v in attrs.items() if v is not None})
+        return o
+
+    def round_of(ctx, v):
+        v = ctx.ex.deref_val(ctx.st, v)
+        return v.attrs.get('round') if isinstance(v, Obj) else None
 
     def h_encode(ctx):
         item = ctx.ex.deref_val(ctx.st, ctx.args[0])
@@ -446,9 +472,13 @@ def c06_9(run):
             return [(None, bytes_obj('upgrade_hashes', z3.BitVec('upgrade_hashes_len', 64)))]
         if d == 'ExtendedCommitInfo':
             inner = ctx.ex.deref_val(ctx.st, item.fields[('ExtendedCommitInfo', 0)])
-            if isinstance(inner, Obj) and inner.attrs.get('tag') == 'empty':
-                return [(None, bytes_obj('eci_empty', z3.BitVec('eci_empty_len', 64)))]
-            return [(None, bytes_obj('eci_full', z3.BitVec('eci_full_len', 64)))]
+            pv = inner.attrs.get('prov') if isinstance(inner, Obj) else None
+            # the first commit-info item a run encodes is the real one (or the vote-less one when generating it failed); a second one is the size fallback
+            k = sum(1 for e in ctx.st.log if e[0] == 'encode_eci'); ctx.st.log.append(('encode_eci',))
+            rnd = inner.attrs.get('round') if isinstance(inner, Obj) else None
+            if k >= 1:
+                return [(None, _with(bytes_obj('eci_empty', z3.BitVec('eci_empty_len', 64), pv), round=rnd))]
+            return [(None, _with(bytes_obj('eci_full', z3.BitVec('eci_full_len', 64), pv), round=rnd))]
         raise Inconclusive(f'DataItem::encode of unexpected variant {item.discr!r} of {item.ty}')
 
     def h_pre(ctx):
@@ -463,7 +493,7 @@ def c06_9(run):
 
     def h_handler(ctx):
         okv = z3.Bool('commit_info_ok')
-        mk = lambda s: ok(Obj('ExtendedCommitInfoWithCurrencyPairMapping', kind='opaque'))
+        mk = lambda s: ok(tagged('ExtendedCommitInfoWithCurrencyPairMapping', 'handler'))
         return [(None, M.thunk_future(lambda ex, s2, fut: [(okv, mk), (z3.Not(okv), (lambda s: err()))]))]
 
     def h_txexec(ctx):
@@ -520,10 +550,11 @@ def c06_9(run):
         (R(r'(^|::)App::uses_data_item_enum$'), lambda ctx: [(None, z3.BoolVal(cfg['flag']))]),
         (R(r'(^|::)App::vote_extensions_enabled$'), h_ve),
         (R(r'ProposalHandler::prepare_proposal(::<.*>)?$'), h_handler),
-        (R(r'ExtendedCommitInfoWithCurrencyPairMapping::(empty|into_raw)$'), lambda ctx: [(None, Obj('eci', kind='opaque'))]),
-        (R(r'Message>::encode_to_vec$'), lambda ctx: [(None, Obj('Vec<u8>', kind='opaque'))]),
-        (R(r'^<(bytes::)?Bytes as From<Vec<u8>>>::from$|^<Vec<u8> as Into<(bytes::)?Bytes>>::into$'), lambda ctx: [(None, bytes_obj('eci_payload', z3.BitVec('eci_payload_len', 64)))]),
-        (R(r'^(bytes::)?Bytes::new$'), lambda ctx: [(None, bytes_obj('empty', z3.BitVecVal(0, 64)))]),
+        (R(r'ExtendedCommitInfoWithCurrencyPairMapping::empty$'), lambda ctx: [(None, _with(tagged('ExtendedCommitInfoWithCurrencyPairMapping', 'empty(round)'), round=ctx.ex.deref_val(ctx.st, ctx.args[0])))]),
+        (R(r'ExtendedCommitInfoWithCurrencyPairMapping::into_raw$'), lambda ctx: [(None, _with(tagged('RawExtendedCommitInfo', ('raw_of', prov_of(ctx, ctx.args[0]))), round=round_of(ctx, ctx.args[0])))]),
+        (R(r'Message>::encode_to_vec$'), lambda ctx: [(None, _with(tagged('Vec<u8>', ('encoded', prov_of(ctx, ctx.args[0]))), round=round_of(ctx, ctx.args[0])))]),
+        (R(r'^<(bytes::)?Bytes as From<Vec<u8>>>::from$|^<Vec<u8> as Into<(bytes::)?Bytes>>::into$'), lambda ctx: [(None, _with(bytes_obj('eci_payload', z3.BitVec('eci_payload_len', 64), prov_of(ctx, ctx.args[0])), round=round_of(ctx, ctx.args[0])))]),
+        (R(r'^(bytes::)?Bytes::new$'), lambda ctx: [(None, bytes_obj('empty', z3.BitVecVal(0, 64), 'empty_bytes'))]),
         (R(r'^(bytes::)?Bytes::len$'), h_bytes_len),
         (R(r'(^|::)App::prepare_proposal_tx_execution$'), h_txexec),
         (R(r'get_cached_block_deposits$'), lambda ctx: [(None, M.new_map('HashMap<RollupId, Vec<Deposit>>', []))]),
@@ -578,6 +609,16 @@ def c06_9(run):
                 run.prove(f'response order: commitments, upgrade hashes iff an upgrade ran, commit info iff vote extensions are enabled, then the included transactions in order {lab}', p.pc,
                           z3.And(z3.BoolVal(tags == expect), up == z3.BoolVal(has_up), ve == z3.BoolVal(has_eci)))
                 run.prove(f'total size of the response <= max_tx_bytes {lab}', p.pc, z3.And(mx >= 0, z3.ULE(total, z3.ZeroExt(8, mx))))
+                for it in items:
+                    if it.attrs.get('tag') in ('eci_full', 'eci_empty'):
+                        pv = it.attrs.get('prov')
+                        run.prove(f'the commit-info item placed in the block is the encoding of a well-formed ExtendedCommitInfoWithCurrencyPairMapping (what every validator parses in ProcessProposal), never a bare empty byte string (C06-10: that is rejected) {lab}',
+                                  p.pc, z3.BoolVal(isinstance(pv, tuple) and pv[0] == 'encoded' and isinstance(pv[1], tuple) and pv[1][0] == 'raw_of' and pv[1][1] in ('handler', 'empty(round)')),
+                                  replay=replay_empty_eci, classify=(lambda model: None), detail={'provenance': str(pv)})
+                        if isinstance(pv, tuple) and 'empty(round)' in str(pv):
+                            rnd = it.attrs.get('round')
+                            run.prove(f'a vote-less commit info carries the round of the local last commit (validators compare it with the proposed last commit\'s round) {lab}', p.pc,
+                                      (rnd == z3.BitVec('round', 32)) if z3.is_expr(rnd) else z3.BoolVal(False), detail={'round': str(rnd)})
                 if 'eci_empty' in tags:
                     # the empty one is used only when the real one did not fit on top of commitments (+ upgrade hashes)
                     base = z3.BitVecVal(wire[flag], 72) + (z3.ZeroExt(8, z3.BitVec('upgrade_hashes_len', 64)) if has_up else z3.BitVecVal(0, 72))
@@ -587,4 +628,27 @@ def c06_9(run):
                           z3.BoolVal(len(sp) == 1 and [ex.deref_val(p, x).attrs.get('tag') for x in ex.deref_val(p, B.fld(ex, p, ex.deref_val(p, sp[0][1]), 'txs', 'Vec<Bytes>')).attrs['items']] == tags))
     if not n_ok:
         raise Inconclusive('vacuity: prepare_proposal never succeeds')
+    run.require_reached(*run.cur.reach)
+
+
+# ----------------------------------------------------------------------------------------------------------------- C06-10
+@obligation('C06', 'C06-10 what ProcessProposal accepts as a commit-info item: a message whose extended_commit_info field is unset (which is what empty bytes decode to) is rejected')
+def c06_10(run):
+    ex = loader.load(['astria-core'], dep_adts=['tendermint'], scalar_types={'tendermint::block::Round': 32})
+    tfr = [n for n in ex.fns if n.endswith('::try_from_raw') and 'closure' not in n and (ex.impl_self(n) or (None, ''))[1] == 'ExtendedCommitInfoWithCurrencyPairMapping']
+    if len(tfr) != 1:
+        raise Inconclusive(f'ExtendedCommitInfoWithCurrencyPairMapping::try_from_raw not found: {tfr}')
+    run.bound(messages='the protobuf default message (prost decodes an empty buffer to it: every optional field unset, every repeated field empty)')
+    run.assume('prost::Message::decode of an empty buffer yields the default message (protobuf semantics)')
+    RAW = 'astria_core::generated::astria::protocol::price_feed::v1::ExtendedCommitInfoWithCurrencyPairMapping'
+    raw = B.struct(ex, RAW, extended_commit_info=none(), id_to_currency_pair=M.new_vec('Vec<IdWithCurrencyPair>', []))
+    n = 0
+    for i, p in enumerate(run.explore(ex, ex.start(tfr[0], [raw]), allow_havoc=(r'^Arguments::|fmt::',))):
+        if p.kind != 'return':
+            run.prove(f'no panic [path {i}]', p.pc, z3.BoolVal(False), detail=p.info); continue
+        n += 1
+        run.sample({'path': i, 'result': p.result.discr})
+        run.prove(f'the default message (= decoded empty bytes) is rejected: extended_commit_info is not set [path {i}]', p.pc, z3.BoolVal(p.result.discr == 'Err'))
+    if not n:
+        raise Inconclusive('vacuity')
     run.require_reached(*run.cur.reach)
